@@ -599,13 +599,17 @@ def loopTextTimed : BatchH.LoopText :=
 line, flush on `len(batch) >= batchSize` (timed loop: `|| time.Since(lastBatchFlush) >= autoFlush`) by sending
 `InputBatch{batch, sourceName, batchStart}`, advancing `batchStart` by `len(batch)` and ALLOCATING a new slice,
 and send the remainder after the loop.  The worker walks `batch.Batch` with `idx` and numbers line `idx`
-`batch.BatchStart + idx`.  (A changed statement, condition or order in /repo makes this false.) -/
+`batch.BatchStart + idx`.  Stdin and followed files run the timed loop with the 250 ms `AutoFlushTimeout`, plain files
+the loop without timer.  (A changed statement, condition or order in /repo makes this false.) -/
 theorem batch_loops_from_source :
     BatchH.parseLoop loopTextPlain = some BatchH.plainLoop ∧ BatchH.parseLoop loopTextTimed = some BatchH.timedLoop ∧
     Gen.C02.workerRange = ["idx", "str", "batch.Batch"] ∧
     Gen.C02.workerCall = ["batch.Source", "batch.BatchStart+uint64(idx)", "str"] ∧
-    ∀ start idx : Int, Gen.C02.workerLineNum start idx = start + idx := by
-  refine ⟨by decide +kernel, by decide +kernel, by decide +kernel, by decide +kernel, fun _ _ => rfl⟩
+    (∀ start idx : Int, Gen.C02.workerLineNum start idx = start + idx) ∧
+    Gen.C02.autoFlushTimeoutMs = 250 ∧
+    Gen.C02.batchLoopCalls = ["OpenReaderToChan:syncReaderToBatcherWithTimeFlush:AutoFlushTimeout",
+      "TailFilesToChan:syncReaderToBatcherWithTimeFlush:AutoFlushTimeout", "OpenFilesToChan:syncReaderToBatcher:batchSize"] := by
+  refine ⟨by decide +kernel, by decide +kernel, by decide +kernel, by decide +kernel, fun _ _ => rfl, by decide, by decide +kernel⟩
 
 /-- **However long the consumer holds a batch, and however the 250 ms timer fired.**  Run the source's timed loop
 (`l`, the program the translator read) on the slice-level machine – backing arrays, `append` in place, `make` – for
@@ -662,7 +666,7 @@ example :
   decide +kernel
 
 /-- flag groups (`s`: the dot also matches the line feed; `m`: `^` is line-wise; `U`: greedy and lazy swapped; a scoped
-`(?i:…)` ends at its parenthesis), POSIX classes, hex escapes and `\Q…\E`, a `{` that is not a repetition -/
+`(?i:…)` ends at its parenthesis), POSIX classes, hex escapes and `\Q…\E`, a `{` that is not a repetition, a repetition of a repetition (POSIX syntax only) -/
 example :
     (Rx.parse (lit "(?s)a.b")).map (fun p => Rx.findSubmatchIndex (lit "a\nb") p.re p.ng) = some [0, 3] ∧
     (Rx.parse (lit "a.b")).map (fun p => Rx.findSubmatchIndex (lit "a\nb") p.re p.ng) = some [] ∧
@@ -676,6 +680,8 @@ example :
     (Rx.parse (lit "[[:^alpha:][:digit:]]+")).map (fun p => Rx.findSubmatchIndex (lit "ab12 c") p.re p.ng) = some [2, 5] ∧
     (Rx.parse (lit "\\x41\\Q.\\E")).map (fun p => Rx.findSubmatchIndex (lit "AxA.") p.re p.ng) = some [2, 4] ∧
     (Rx.parse (lit "a{,2}")).map (fun p => Rx.findSubmatchIndex (lit "a{,2}") p.re p.ng) = some [0, 5] ∧
+    (Rx.parseEx true (lit "a{2}{3}")).map (fun p => Rx.findSubmatchIndexL (lit "aaaaaaa") p.re p.ng) = some [0, 6] ∧
+    (Rx.parse (lit "a{2}{3}")).isNone = true ∧
     (Rx.parse (lit "a{1001}")).isNone = true ∧ (Rx.parseEx true (lit "[a-c-e]")).isNone = true := by
   decide +kernel
 
